@@ -181,4 +181,218 @@ theorem instListKind_ok {v : Variant} {now : Nat} {self : Addr} {funds : List Co
     obtain ⟨rfl, rfl⟩ := h
     exact ⟨rfl, hraw, st, num, hst, hnum, rfl⟩
 
+/-- **instantiate, list kinds**: a successful composite instantiate at a fresh address IS a successful C11 instantiate of the
+translated message, and the new state projects onto the C11 state it returns -/
+theorem inst_sim11_list (d : Denom) (hd : d ≠ NATIVE) {s s' : State} {v : Variant} (hv : v.store = .list) {sender self : Addr}
+    {funds : List Coin} {m : InstMsg} (hs : sender ≠ self) (hp : self ≠ FAIRBURN_POOL)
+    (hfresh : ∀ d, s.bank.bal self d = 0)
+    (h : step s (.instantiate v sender funds self m) = .ok s') :
+    ∃ w, s'.wl = some w ∧ w.v = v ∧ w.self = self ∧ Aligned w ∧
+      WlMembers.instantiate v.kind11 (trInst11 v s sender self funds m) = .ok (proj11 d s'.bank w) := by
+  obtain ⟨hkt, hkf, hkne, hk⟩ := kind11_list hv
+  simp only [step] at h
+  obtain ⟨b1, w, msgs, b2, hb1, hi, ha, rfl⟩ := instantiateTx_ok h
+  simp only [instantiateWl, hv] at hi
+  obtain ⟨hlim, hg, hlen, hpay, hmsgs, hraw, htail⟩ := instListKind_ok hi
+  subst hmsgs
+  have hmp := WlMembers.mustPay_mayPay hpay
+  obtain ⟨hsum0, hsumd⟩ := mayPay_sum hmp.1
+  have hfee2 : 2 ≤ WlMembers.creationFee v.kind11 m.memberLimit :=
+    creationFee_ge (price_list hv) (fun e => hlim (Or.inl e))
+  have hbal0 := sendFunds_bal hb1 hs NATIVE
+  have hbald := sendFunds_bal hb1 hs d
+  rw [hfresh, hsum0] at hbal0
+  rw [hfresh, hsumd d hd] at hbald
+  obtain ⟨b2', ha', hb0, hbd⟩ := fairBurn_apply (b := b1) (self := self) hfee2 (by omega) hp
+  rw [ha'] at ha
+  simp only [Option.some.injEq] at ha
+  subst ha
+  have hal : (trInst11 v s sender self funds m).allowed = true := by simp [trInst11, hb1, hg]
+  have hlen' : (v.kind11.isTiered && decide ((trInst11 v s sender self funds m).stageMembers.length ≠
+      (trInst11 v s sender self funds m).nStages)) = false := by rw [hkt]; exact hlen
+  rw [inst11_eq hkne (trInst11 v s sender self funds m) hlim hal hlen' hpay rfl rfl]
+  have hb0' : b2'.bal self NATIVE = 0 := by rw [hb0, hbal0]; omega
+  have hbd' : b2'.bal self d = 0 := by rw [hbd d hd, hbald]
+  generalize hx : burnShare (WlMembers.creationFee v.kind11 m.memberLimit) = x
+  by_cases ht : v.tiered = true
+  · simp only [ht, if_true] at htail hraw
+    obtain ⟨gs, num, hst, hnum, rfl⟩ := htail
+    have hlen2 : gs.length = m.stageMembers.length := (WlMembers.instStages_spec _ _ _ _ _ _ _ hst).2.1
+    refine ⟨_, rfl, rfl, rfl, ?_, ?_⟩
+    · intro _
+      simp only [normStages, List.length_map, hlen2]
+      simp only [ht, Bool.true_and, decide_eq_false_iff_not, Decidable.not_not] at hlen
+      exact hlen
+    · simp only [trInst11, hkt, ht, if_true, hraw, if_false, hst, hnum, proj11, blankWl, Ghost.fee, Ghost.zero,
+        fairBurn_burned, fairBurn_pooled, hb0', hbd', hx, Nat.zero_add]
+  · simp only [ht, if_false, Bool.false_eq_true] at htail hraw
+    obtain ⟨st, num, hst, hnum, rfl⟩ := htail
+    refine ⟨_, rfl, rfl, rfl, ?_, ?_⟩
+    · intro _; rfl
+    · simp only [trInst11, hkt, ht, if_false, Bool.false_eq_true, hraw, hst, hnum, proj11, blankWl, Ghost.fee, Ghost.zero,
+        fairBurn_burned, fairBurn_pooled, hb0', hbd', hx, Nat.zero_add]
+
+/-- **instantiate, whitelist-immutable** -/
+theorem inst_sim11_immutable (d : Denom) {s s' : State} {v : Variant} (hv : v.store = .immutable) {sender self : Addr}
+    {funds : List Coin} {m : InstMsg} (hfresh : ∀ d, s.bank.bal self d = 0)
+    (h : step s (.instantiate v sender funds self m) = .ok s') :
+    ∃ w, s'.wl = some w ∧ w.v = v ∧ w.self = self ∧ Aligned w ∧
+      WlMembers.instantiate v.kind11 (trInst11 v s sender self funds m) = .ok (proj11 d s'.bank w) := by
+  have hk := kind11_immutable hv
+  simp only [step] at h
+  obtain ⟨b1, w, msgs, b2, hb1, hi, ha, rfl⟩ := instantiateTx_ok h
+  simp only [instantiateWl, hv, instImmutable] at hi
+  split at hi; · cases hi
+  rename_i hf
+  split at hi; · cases hi
+  rename_i hl
+  simp only [Except.ok.injEq, Prod.mk.injEq] at hi
+  obtain ⟨rfl, rfl⟩ := hi
+  have hfe : funds = [] := by
+    cases funds with
+    | nil => rfl
+    | cons c cs => simp at hf
+  subst hfe
+  simp only [MintPay.Bank.sendFunds, Option.some.injEq] at hb1
+  subst hb1
+  simp only [MintPay.applyMsgs, Option.some.injEq] at ha
+  subst ha
+  refine ⟨_, rfl, rfl, rfl, ?_, ?_⟩
+  · intro hx; simp only [blankWl] at hx; rw [hv] at hx; cases hx
+  · rw [hk]
+    simp only [WlMembers.instantiate, trInst11, List.isEmpty_nil, Bool.not_true, Bool.false_eq_true, if_false, hl, proj11,
+      blankWl, hk, hfresh, Ghost.zero, WlMembers.emptyBank]
+
+theorem supports_immutable {v : Variant} (hv : v.store = .immutable) (m : ExecMsg) : supports v m = false := by
+  cases m <;> simp [supports, Variant.isList, Variant.isImmutable, hv]
+
+/-- **execute, whitelist-immutable**: `enum ExecuteMsg {}` — nothing is accepted on either side -/
+theorem exec_sim11_immutable (d : Denom) {s : State} {w : Wl} (hw : s.wl = some w) (hv : w.v.store = .immutable)
+    (sender : Addr) (funds : List Coin) (m : ExecMsg) : Sim11 d s w sender funds m := by
+  have hk : (proj11 d s.bank w).kind = .immutable := kind11_immutable hv
+  have hstep : ∀ s', step s (.exec sender funds m) ≠ .ok s' := by
+    intro s' h
+    simp only [step] at h
+    obtain ⟨w0, b1, w', msgs, b2, hw0, _, hh, _, _⟩ := execute_ok h
+    rw [hw] at hw0; cases hw0
+    simp [handle, supports_immutable hv] at hh
+  refine ⟨fun s' h => absurd h (hstep s'), fun _ _ => ?_⟩
+  exact ⟨.invalid, by simp [WlMembers.exec, hk]⟩
+
+/-! ## the invariant `Aligned` and what no message changes -/
+
+theorem handle_frame {w w' : Wl} {now : Nat} {sender : Addr} {funds : List Coin} {m : ExecMsg} {msgs : List Msg}
+    (h : handle w now sender funds m = .ok (w', msgs)) :
+    w'.self = w.self ∧ w'.v = w.v ∧ (Aligned w → Aligned w') := by
+  unfold handle at h
+  split at h; · cases h
+  simp only [] at h
+  cases m with
+  | updateStartTime t =>
+    simp only [] at h; split at h
+    · rename_i w0 hh; simp only [Except.ok.injEq, Prod.mk.injEq] at h; obtain ⟨rfl, _⟩ := h
+      unfold updateStartTime at hh; split at hh; · cases hh
+      split at hh; · cases hh
+      split at hh; · cases hh
+      simp only [Except.ok.injEq] at hh; subst hh; exact ⟨rfl, rfl, fun a => a⟩
+    · cases h
+  | updateEndTime t =>
+    simp only [] at h; split at h
+    · rename_i w0 hh; simp only [Except.ok.injEq, Prod.mk.injEq] at h; obtain ⟨rfl, _⟩ := h
+      unfold updateEndTime at hh; split at hh; · cases hh
+      split at hh; · cases hh
+      split at hh; · cases hh
+      simp only [Except.ok.injEq] at hh; subst hh; exact ⟨rfl, rfl, fun a => a⟩
+    · cases h
+  | updatePerAddressLimit n =>
+    simp only [] at h; split at h
+    · rename_i w0 hh; simp only [Except.ok.injEq, Prod.mk.injEq] at h; obtain ⟨rfl, _⟩ := h
+      unfold updatePerAddressLimit at hh; split at hh; · cases hh
+      split at hh; · cases hh
+      simp only [Except.ok.injEq] at hh; subst hh; exact ⟨rfl, rfl, fun a => a⟩
+    · cases h
+  | updateAdmins l =>
+    simp only [] at h; split at h
+    · rename_i w0 hh; simp only [Except.ok.injEq, Prod.mk.injEq] at h; obtain ⟨rfl, _⟩ := h
+      unfold updateAdmins at hh; split at hh; · cases hh
+      split at hh; · cases hh
+      simp only [Except.ok.injEq] at hh; subst hh; exact ⟨rfl, rfl, fun a => a⟩
+    · cases h
+  | freeze =>
+    simp only [] at h; split at h
+    · rename_i w0 hh; simp only [Except.ok.injEq, Prod.mk.injEq] at h; obtain ⟨rfl, _⟩ := h
+      unfold freeze at hh; split at hh; · cases hh
+      simp only [Except.ok.injEq] at hh; subst hh; exact ⟨rfl, rfl, fun a => a⟩
+    · cases h
+  | unknown => cases h
+  | increaseMemberLimit n =>
+    simp only [] at h
+    unfold increaseMemberLimit at h
+    simp only [] at h
+    split at h; · cases h
+    split at h; · cases h
+    split at h; · cases h
+    split at h; · cases h
+    simp only [Except.ok.injEq, Prod.mk.injEq] at h
+    obtain ⟨rfl, _⟩ := h; exact ⟨rfl, rfl, fun a => a⟩
+  | updateStageConfig u =>
+    simp only [] at h; split at h
+    · rename_i w0 hh; simp only [Except.ok.injEq, Prod.mk.injEq] at h; obtain ⟨rfl, _⟩ := h
+      unfold updateStageConfig at hh; split at hh; · cases hh
+      split at hh; · cases hh
+      simp only [] at hh
+      split at hh; · cases hh
+      simp only [Except.ok.injEq] at hh; subst hh
+      exact ⟨rfl, rfl, fun a hv => by simp only [Wl.tipped, List.length_set]; exact a hv⟩
+    · cases h
+  | addMembers stage ms =>
+    simp only [] at h; split at h
+    · rename_i w0 hh; simp only [Except.ok.injEq, Prod.mk.injEq] at h; obtain ⟨rfl, _⟩ := h
+      unfold addMembers at hh; split at hh; · cases hh
+      simp only [] at hh
+      split at hh
+      · split at hh; · cases hh
+        split at hh; · cases hh
+        simp only [Except.ok.injEq] at hh; subst hh
+        exact ⟨rfl, rfl, fun a hv => by simp only [Wl.tipped, List.length_set]; exact a hv⟩
+      · split at hh; · cases hh
+        simp only [Except.ok.injEq] at hh; subst hh; exact ⟨rfl, rfl, fun a => a⟩
+    · cases h
+  | removeMembers stage as =>
+    simp only [] at h; split at h
+    · rename_i w0 hh; simp only [Except.ok.injEq, Prod.mk.injEq] at h; obtain ⟨rfl, _⟩ := h
+      unfold removeMembers at hh; split at hh; · cases hh
+      split at hh; · cases hh
+      split at hh; · cases hh
+      split at hh
+      · split at hh; · cases hh
+        split at hh; · cases hh
+        simp only [Except.ok.injEq] at hh; subst hh
+        exact ⟨rfl, rfl, fun a hv => by simp only [Wl.tipped, List.length_set]; exact a hv⟩
+      · split at hh; · cases hh
+        simp only [Except.ok.injEq] at hh; subst hh; exact ⟨rfl, rfl, fun a => a⟩
+    · cases h
+  | addStage st ms =>
+    simp only [] at h; split at h
+    · rename_i w0 hh; simp only [Except.ok.injEq, Prod.mk.injEq] at h; obtain ⟨rfl, _⟩ := h
+      unfold addStage at hh; split at hh; · cases hh
+      split at hh; · cases hh
+      simp only [] at hh
+      split at hh; · cases hh
+      split at hh; · cases hh
+      simp only [Except.ok.injEq] at hh; subst hh
+      exact ⟨rfl, rfl, fun a hv => by simp only [Wl.tipped, List.length_append, List.length_singleton]; rw [a hv]⟩
+    · cases h
+  | removeStage id =>
+    simp only [] at h; split at h
+    · rename_i w0 hh; simp only [Except.ok.injEq, Prod.mk.injEq] at h; obtain ⟨rfl, _⟩ := h
+      unfold removeStage at hh; split at hh; · cases hh
+      split at hh; · cases hh
+      split at hh; · cases hh
+      simp only [] at hh
+      split at hh; · cases hh
+      simp only [Except.ok.injEq] at hh; subst hh
+      exact ⟨rfl, rfl, fun a hv => by simp only [Wl.tipped, List.length_take]; rw [a hv]⟩
+    · cases h
+
 end LP.WF
